@@ -59,6 +59,7 @@ def main():
     also, tier, jobs = [], 'quick', 1
     merge = False
     sel = []
+    out_file, merge_from = None, []
     while args:
         a = args.pop(0)
         if a == '--also':
@@ -69,17 +70,27 @@ def main():
             jobs = int(args.pop(0))
         elif a == '--merge':
             merge = True
+        elif a == '--out':                       # also dump this run's rows to a file (parallel runs, merged afterwards with --merge-from)
+            out_file = args.pop(0)
+        elif a == '--merge-from':                # take rows from files written with --out instead of running anything
+            merge_from.append(args.pop(0))
         else:
             sel.append(a)
     dirs = sorted(os.path.dirname(p) for p in glob.glob(os.path.join(VERIF, 'seeded', 'C*', '*', 'patch.diff')))
     if sel:
         dirs = [d for d in dirs if any(('/' + s + '/') in (d + '/') or d.endswith('/' + s) for s in sel)]
     results = []
+    if merge_from:
+        for f in merge_from:
+            results += json.load(open(f))
+        dirs, merge, sel = [], True, ['-']
     for d in dirs:
         r = run_one(d, also, tier)
         results.append(r)
         own = r['checks'].get(r['id'].split('/')[0], {})
         print(r['id'], 'demo', r.get('demo_clean'), r.get('demo_patched'), 'check exit', own.get('exit'), own.get('wall'), (own.get('first') or [''])[0][:160], r.get('error', ''), flush=True)
+    if out_file:
+        json.dump(results, open(out_file, 'w'), indent=1)
     if merge and sel:
         # keep the earlier results of everything that was not selected this time
         old = json.load(open(os.path.join(VERIF, 'seeded', 'RESULTS.json'))) if os.path.exists(os.path.join(VERIF, 'seeded', 'RESULTS.json')) else []
